@@ -583,34 +583,42 @@ def run_mt(cfg):
 # ------------------------------------------------------------------ LikelihoodList
 
 def run_list(cfg):
+    """LikelihoodList.__call__ / forward.  `container`: how the per-member noises are passed — a list, a tuple, or ONE
+    stacked tensor (k x n, or k x b x n for batched members) whose row i belongs to member i (the code iterates the
+    `noise` argument, so a stacked tensor is an iterable of its rows).  Members may carry a batch shape (also b == k)."""
     import torch
     import gpytorch
     case = Case(cfg)
     members = cfg["members"]
+    container = cfg.get("container", "list")
     liks, Ps, dists, Cs, means, samples = [], [], [], [], [], []
     for m in members:
         lik, P, gen = build_single(m)
+        db = tuple(m["db"])
         liks.append(lik)
         Ps.append(P)
-        Cm = _spd(torch, (), m["n"], gen)
-        mean = torch.randn(m["n"], generator=gen, dtype=torch.float64)
+        Cm = _spd(torch, db, m["n"], gen)
+        mean = torch.randn(*db, m["n"], generator=gen, dtype=torch.float64)
         Cs.append(Cm)
         means.append(mean)
         dists.append(gpytorch.distributions.MultivariateNormal(mean, Cm))
-        samples.append(torch.randn(m["n"], generator=gen, dtype=torch.float64))
+        samples.append(torch.randn(*db, m["n"], generator=gen, dtype=torch.float64))
     ll = gpytorch.likelihoods.LikelihoodList(*liks)
     nl = len(liks)
     na = cfg["nargs"]
     nn = cfg["nnoise"]      # -1: no noise kwarg
     args = (dists if cfg["method"] == "call" else samples)[:na]
-    # lengths beyond the members re-use the last one
-    while len(args) < na:
+    while len(args) < na:   # lengths beyond the members re-use the last one
         args = args + [args[-1]]
     kw = {}
     if nn >= 0:
         noises = [P["call"] for P in Ps][:nn]
         while len(noises) < nn:
             noises.append(noises[-1])
+        if container == "tuple":
+            noises = tuple(noises)
+        elif container == "stacked":
+            noises = torch.stack(noises)
         kw["noise"] = noises
     err = None
     out = None
@@ -621,12 +629,18 @@ def run_list(cfg):
         except Exception as e:
             err = e
     case.l1 = [f"route {nl} {na} {nn}"]
+    obs, offs = [], []
     for m, P in zip(members, Ps):
         Pk = dict(P)
         if nn < 0:
             Pk["call"] = None
-        case.l1.append(single_noise_line(m, Pk, ()))
-    key = f"likelihoodlist:{cfg['method']}:{'noise' if nn >= 0 else 'plain'}"
+        ob = single_out_batch(m, Pk)
+        obs.append(ob)
+        offs.append(len(case.l1))
+        case.l1 += [single_noise_line(m, Pk, oi) for oi in all_idx(ob)]
+    tagc = "plain" if nn < 0 else ("noise" if container == "list" else "noise-" + container)
+    key = f"likelihoodlist:{cfg['method']}:{tagc}"
+    how = {"list": "noise=[...]", "tuple": "noise=(...)", "stacked": "noise=<stacked tensor, row i for member i>"}[container]
 
     def after1(rep1):
         table = rep1[0]
@@ -637,7 +651,7 @@ def run_list(cfg):
             return
         if err is not None:
             case.fail(key, f"LikelihoodList.{'__call__' if cfg['method'] == 'call' else 'forward'}"
-                           f"({na} args{', noise=[...]' if nn >= 0 else ''}) raised {type(err).__name__}: {str(err)[:160]}")
+                           f"({na} args{', ' + how if nn >= 0 else ''}) raised {type(err).__name__}: {str(err)[:160]}")
             return
         routes = [tuple(x.split(":")) for x in table.split()]
         if len(out) != len(routes):
@@ -646,35 +660,234 @@ def run_list(cfg):
         lines2, todo = [], []
         for k, (li, ai, ni) in enumerate(routes):
             li, ai = int(li), int(ai)
-            R = C.parse_mat(rep1[1 + li].split())[0]
-            if cfg["method"] == "call":
-                if not torch.equal(out[k].mean.detach(), means[ai]):
-                    case.fail(key, f"output {k} does not carry the mean of argument {ai}")
-                lines2.append(f"marg {C.mat_tokens(Cs[ai])} {_show(R)}")
-                todo.append((k, out[k].covariance_matrix.detach().tolist()))
-            else:
-                o = out[k]
-                if not torch.equal(o.loc.detach(), samples[ai]):
-                    case.fail(key, f"forward output {k} is not centred at function sample {ai}")
-                got = (o.scale.detach() ** 2).tolist()
-                for e, g in enumerate(got):
-                    if not abs(g - float(R[e][e])) <= 1e-12 * (1 + abs(g)):
-                        case.fail(key, f"forward output {k}: variance[{e}] = {g!r}, member {li}'s noise "
-                                       f"{'with noise ' + ni if ni != 'N' else ''} is {float(R[e][e])!r}")
+            ob, db = obs[li], tuple(members[ai]["db"])
+            oidx = all_idx(ob)
+            Rs = [C.parse_mat(rep1[offs[li] + q].split())[0] for q in range(len(oidx))]
+            n = members[ai]["n"]
+            try:
+                if cfg["method"] == "call":
+                    mo = out[k].mean.detach()
+                    mb = bshape(tuple(mo.shape[:-1]), db)
+                    if mo.shape[-1] != n or not torch.equal(mo.expand(*mb, n), means[ai].expand(*mb, n)):
+                        case.fail(key, f"output {k} does not carry the mean of argument {ai}")
+                    cov = out[k].covariance_matrix.detach()
+                    full = bshape(tuple(cov.shape[:-2]), ob)
+                    for oi in all_idx(full):
+                        lines2.append(f"marg {C.mat_tokens(Cs[ai][bidx(db, oi)])} {_show(Rs[oidx.index(bidx(ob, oi))])}")
+                        todo.append((k, oi, cov[bidx(tuple(cov.shape[:-2]), oi)].tolist()))
+                else:
+                    o = out[k]
+                    lo = o.loc.detach()
+                    mb = bshape(tuple(lo.shape[:-1]), db)
+                    if lo.shape[-1] != n or not torch.equal(lo.expand(*mb, n), samples[ai].expand(*mb, n)):
+                        case.fail(key, f"forward output {k} is not centred at function sample {ai}")
+                    var = o.scale.detach() ** 2
+                    full = bshape(tuple(var.shape[:-1]), ob)
+                    if var.shape[-1] != n:
+                        raise ValueError(f"variance has event size {var.shape[-1]}, expected {n}")
+                    for oi in all_idx(full):
+                        R = Rs[oidx.index(bidx(ob, oi))]
+                        got = var[bidx(tuple(var.shape[:-1]), oi)].tolist()
+                        for e, g in enumerate(got):
+                            if not abs(g - float(R[e][e])) <= 1e-12 * (1 + abs(g)):
+                                case.fail(key, f"forward output {k}{list(oi)}: variance[{e}] = {g!r}; member {li} with its own "
+                                               f"noise ({how}) has {float(R[e][e])!r}")
+            except ValueError as e:
+                case.fail(key, f"output {k} has a shape that is not member {li} applied to argument {ai} "
+                               f"{'and noise ' + ni if ni != 'N' else ''}({how}): {e}")
         case.l2 = lines2
 
         def after2(rep2):
-            for (k, got), rep in zip(todo, rep2):
+            for (k, oi, got), rep in zip(todo, rep2):
                 exact, _ = C.parse_mat(rep.split())
                 scale = max(abs(float(v)) for row in exact for v in row)
-                _cmp_matrix(case, key, f"LikelihoodList output {k} covariance vs member {k} applied to its own "
-                            f"argument{' and noise' if nn >= 0 else ''}", got, exact, scale)
+                _cmp_matrix(case, key, f"LikelihoodList output {k}{list(oi)} covariance vs member {k} applied to its own "
+                            f"argument{' and its own noise (' + how + ')' if nn >= 0 else ''}", got, exact, scale)
         case.after2 = after2
     case.after1 = after1
     return case
 
 
-RUN = {"single": run_single, "mt": run_mt, "list": run_list}
+# ------------------------------------------------------------------ op-then-use histories
+
+def _snap_single(lik, kind):
+    P = {"call": None, "stored": None, "sigma2": None}
+    if kind == "gauss":
+        P["sigma2"] = lik.noise.detach().clone()
+    else:
+        P["stored"] = lik.noise_covar.noise.detach().clone()
+        if kind == "fixed+learned":
+            P["sigma2"] = lik.second_noise_covar.noise.detach().clone()
+    return P
+
+
+def _snap_mt(lik, cfg):
+    P = {"sigma2": None, "d": None, "F": None}
+    if cfg["g"]:
+        P["sigma2"] = lik.noise.detach().clone()
+    if cfg["tk"]:
+        if cfg["rank"] == 0:
+            P["d"] = lik.task_noises.detach().clone()
+        else:
+            P["F"] = lik.task_noise_covar_factor.detach().clone()
+    return P
+
+
+def hist_targets(cfg):
+    """noise parameters of the likelihood of `cfg`, with the ways each can be changed."""
+    kind = cfg["kind"]
+    allm = ["setter", "raw", "load_state_dict", "initialize"]
+    if kind == "gauss":
+        return {"noise": allm}
+    if kind == "fixed":
+        return {"stored": ["setter", "initialize"]}
+    if kind == "fixed+learned":
+        return {"stored": ["setter", "initialize"], "second_noise": allm}
+    t = {}
+    if cfg["g"]:
+        t["noise"] = allm
+    if cfg["tk"]:
+        if cfg["rank"] == 0:
+            t["task_noises"] = allm
+        else:
+            t["factor"] = ["raw", "load_state_dict", "initialize"]
+    return t
+
+
+def _mutate(torch, lik, cfg, target, method, gen):
+    """Change one noise parameter of the live likelihood object through the public API."""
+    kind = cfg["kind"]
+    if target == "stored":
+        new = _pos(torch, tuple(lik.noise_covar.noise.shape), gen)
+        if method == "setter":
+            lik.noise = new
+        else:
+            lik.noise_covar.initialize(noise=new)
+        return
+    if target == "factor":
+        owner, leaf, full = lik, "task_noise_covar_factor", "task_noise_covar_factor"
+        setter = None
+    elif target == "task_noises":
+        owner, leaf, full = lik, "raw_task_noises", "raw_task_noises"
+        setter = lambda v: setattr(lik, "task_noises", v)  # noqa: E731
+    elif target == "second_noise":
+        owner, leaf, full = lik.second_noise_covar, "raw_noise", "second_noise_covar.raw_noise"
+        setter = lambda v: setattr(lik, "second_noise", v)  # noqa: E731
+    elif kind == "mt":
+        owner, leaf, full = lik, "raw_noise", "raw_noise"
+        setter = lambda v: setattr(lik, "noise", v)  # noqa: E731
+    else:
+        owner, leaf, full = lik.noise_covar, "raw_noise", "noise_covar.raw_noise"
+        setter = lambda v: setattr(lik, "noise", v)  # noqa: E731
+    p = getattr(owner, leaf)
+    raw_new = 0.8 * torch.randn(tuple(p.shape), generator=gen, dtype=torch.float64)
+    if method == "setter":
+        setter(_pos(torch, tuple(p.shape), gen))
+    elif method == "raw":
+        with torch.no_grad():
+            p.copy_(raw_new)
+    elif method == "load_state_dict":
+        sd = lik.state_dict()
+        sd[full] = raw_new
+        lik.load_state_dict(sd)
+    elif method == "initialize":
+        owner.initialize(**{leaf: raw_new})
+    else:
+        raise ValueError(method)
+
+
+def run_hist(cfg):
+    """call -> change a noise parameter -> call again (same shape, then another shape): every call must add the noise
+    operator of the parameters the likelihood holds *at that moment*."""
+    import torch
+    import gpytorch
+    case = Case(cfg)
+    kind, mode, lb = cfg["kind"], cfg["mode"], tuple(cfg["lb"])
+    is_mt = kind == "mt"
+    if is_mt:
+        lik, _P, gen = build_mt(cfg)
+    else:
+        lik, _P, gen = build_single(cfg)
+    lik.train() if mode == "train" else lik.eval()
+    db = tuple(cfg["db"])
+    t = cfg.get("t", 1)
+    steps = []     # (label, n, cov, C, noise lines, out batch)
+
+    def call(label, n):
+        cfgn = dict(cfg, n=n)
+        N = n * t
+        Cm = _spd(torch, db, N, gen)
+        kw = {}
+        if is_mt:
+            mean = torch.randn(*db, n, t, generator=gen, dtype=torch.float64)
+            dist = gpytorch.distributions.MultitaskMultivariateNormal(mean, Cm, interleaved=cfg["il"])
+        else:
+            mean = torch.randn(*db, n, generator=gen, dtype=torch.float64)
+            dist = gpytorch.distributions.MultivariateNormal(mean, Cm)
+        P = _snap_mt(lik, cfg) if is_mt else _snap_single(lik, kind)
+        if not is_mt and kind != "gauss" and n != cfg["nstored"]:
+            P["call"] = _pos(torch, (*db, n), gen)      # other event size: FixedNoise needs call-time noise
+            kw["noise"] = P["call"]
+        try:
+            with warnings.catch_warnings():
+                warnings.simplefilter("ignore")
+                cov = lik(dist, **kw).covariance_matrix.detach()
+        except Exception as e:
+            case.fail(f"history-raises:{kind}:{mode}", f"{label}: likelihood(dist) raised {type(e).__name__}: {str(e)[:160]}")
+            return
+        if is_mt:
+            ob = bshape(db, lb)
+            lines = [mt_noise_line(cfgn, P, oi, cfg["il"]) for oi in all_idx(ob)]
+        else:
+            ob = single_out_batch(cfgn, P)
+            lines = [single_noise_line(cfgn, P, oi) for oi in all_idx(ob)]
+        steps.append((label, n, cov, Cm, lines, ob))
+
+    n, n2 = cfg["n"], cfg["n2"]
+    call("first call", n)
+    for target, method in cfg["ops"]:
+        try:
+            _mutate(torch, lik, cfg, target, method, gen)
+        except Exception as e:
+            case.fail(f"history-raises:{kind}:{mode}:{target}:{method}",
+                      f"changing `{target}` via {method} raised {type(e).__name__}: {str(e)[:160]}")
+            break
+        lab = f"{target}:{method}"
+        call(f"{lab}|call on the same shape after changing `{target}` via {method} ({mode} mode)", n)
+        call(f"{lab}|call on another event size ({n2}) after changing `{target}` via {method} ({mode} mode)", n2)
+        call(f"{lab}|second call on the first shape after changing `{target}` via {method} ({mode} mode)", n)
+    case.l1 = [l for st in steps for l in st[4]]
+
+    def after1(rep1):
+        lines2, todo = [], []
+        p = 0
+        for (label, nn_, cov, Cm, lines, ob) in steps:
+            oidx = all_idx(ob)
+            Rs = [C.parse_mat(r.split())[0] for r in rep1[p:p + len(lines)]]
+            p += len(lines)
+            try:
+                full = bshape(tuple(cov.shape[:-2]), ob)
+            except ValueError as e:
+                case.fail(f"history:{kind}:{mode}:{label.split('|')[0]}", f"{label}: covariance batch shape: {e}")
+                continue
+            for oi in all_idx(full):
+                lines2.append(f"marg {C.mat_tokens(Cm[bidx(db, oi)])} {_show(Rs[oidx.index(bidx(ob, oi))])}")
+                todo.append((label, oi, cov[bidx(tuple(cov.shape[:-2]), oi)].tolist()))
+        case.l2 = lines2
+
+        def after2(rep2):
+            for (label, oi, got), rep in zip(todo, rep2):
+                exact, _ = C.parse_mat(rep.split())
+                scale = max(abs(float(v)) for row in exact for v in row)
+                lab = label.split("|")
+                _cmp_matrix(case, f"history:{kind}:{mode}:{lab[0].replace(' ', '-')}",
+                            f"{lab[-1]}, batch element {list(oi)}: covariance vs C + R(current parameters)", got, exact, scale)
+        case.after2 = after2
+    case.after1 = after1
+    return case
+
+
+RUN = {"single": run_single, "mt": run_mt, "list": run_list, "hist": run_hist}
 
 
 # ------------------------------------------------------------------ generator
@@ -732,20 +945,28 @@ def gen_cfgs(ctx):
                                          ((), (3, 1)), ((1,), (2,)), ((2,), ()), ((2,), (3, 1))])
                     cfgs.append({"fam": "mt", "n": n, "t": t, "rank": rank, "g": g, "tk": tk, "il": il,
                                  "lb": list(lb), "db": list(db), "seed": seed()})
-    # --- LikelihoodList
-    for _ in range(2 if quick else 30):
+    # --- LikelihoodList: noise passed as list / tuple / ONE stacked tensor; members with and without batch (also b == k)
+    for _ in range(1 if quick else 12):
         for method in ("call", "forward"):
-            for with_noise in (False, True):
+            for container in ("plain", "list", "tuple", "stacked"):
                 for nl in (1, 2, 3):
-                    members = []
-                    for _k in range(nl):
-                        kind = rng.choice(["gauss", "fixed", "fixed+learned"])
-                        n = rng.randint(1, 5)
-                        members.append({"fam": "single", "kind": kind, "n": n, "lb": [], "db": [], "nb": [],
-                                        "nstored": n, "call": [], "seed": seed()})
-                    cfgs.append({"fam": "list", "members": members, "method": method, "nargs": nl,
-                                 "nnoise": nl if with_noise else -1, "seed": seed()})
-                # one length mismatch per cell
+                    for mb in ("none", "b=k", "b"):
+                        if mb != "none" and quick and container in ("plain", "tuple") and nl == 1:
+                            continue
+                        b = [] if mb == "none" else ([max(nl, 2)] if mb == "b=k" else [rng.choice([x for x in (2, 3, 4) if x != nl])])
+                        if mb == "b=k" and nl == 1:
+                            b = [1]
+                        common_n = rng.randint(1, 5)
+                        members = []
+                        for _k in range(nl):
+                            kind = rng.choice(["gauss", "fixed", "fixed+learned"])
+                            n = common_n if container == "stacked" else rng.randint(1, 5)
+                            members.append({"fam": "single", "kind": kind, "n": n, "lb": [], "db": list(b), "nb": [],
+                                            "nstored": n, "call": list(b), "seed": seed()})
+                        cfgs.append({"fam": "list", "members": members, "method": method, "nargs": nl,
+                                     "container": "list" if container == "plain" else container,
+                                     "nnoise": -1 if container == "plain" else nl, "seed": seed()})
+            for with_noise in (False, True):    # one length mismatch per cell
                 nl = rng.randint(2, 3)
                 members = [{"fam": "single", "kind": "gauss", "n": 2, "lb": [], "db": [], "nb": [], "nstored": 2,
                             "call": [], "seed": seed()} for _k in range(nl)]
@@ -755,6 +976,33 @@ def gen_cfgs(ctx):
                 else:
                     cfgs.append({"fam": "list", "members": members, "method": method, "nargs": nl - 1,
                                  "nnoise": -1, "seed": seed()})
+    # --- op-then-use histories: every noise parameter x every way of changing it x {train, eval}
+    hk = [{"kind": "gauss"}, {"kind": "fixed"}, {"kind": "fixed+learned"},
+          {"kind": "mt", "g": True, "tk": True, "rank": 0}, {"kind": "mt", "g": True, "tk": True, "rank": 1},
+          {"kind": "mt", "g": True, "tk": False, "rank": 0}, {"kind": "mt", "g": False, "tk": True, "rank": 0},
+          {"kind": "mt", "g": False, "tk": True, "rank": 2}]
+    for _ in range(1 if quick else 6):
+        for base in hk:
+            for target, methods in hist_targets(base).items():
+                for method in methods:
+                    for mode in ("train", "eval"):
+                        c = dict(base)
+                        n = rng.randint(1, 4)
+                        n2 = rng.choice([x for x in (1, 2, 3, 4, 5) if x != n])
+                        lb = rng.choice([[], [2]])
+                        db = lb if (base["kind"] == "mt" or rng.random() < 0.5) else rng.choice([[], [2]])
+                        if base["kind"] == "mt" and not lb:
+                            db = rng.choice([[], [2]])
+                        c.update(fam="hist", mode=mode, n=n, n2=n2, lb=list(lb), db=list(db), nb=[], nstored=n, call=None,
+                                 ops=[[target, method]], seed=seed())
+                        if base["kind"] == "mt":
+                            t = rng.randint(2, 3)
+                            c.update(t=t, rank=min(base["rank"], t), il=rng.random() < 0.5)
+                        # a second, random change afterwards
+                        tg = hist_targets(c)
+                        t2 = rng.choice(sorted(tg))
+                        c["ops"].append([t2, rng.choice(tg[t2])])
+                        cfgs.append(c)
     return cfgs
 
 
@@ -793,7 +1041,11 @@ def _cell(cfg):
         return f"{cfg['kind']}:{variant_of(cfg)}"
     if cfg["fam"] == "mt":
         return "multitask:" + variant_of(cfg)
-    return f"list:{cfg['method']}:{'noise' if cfg['nnoise'] >= 0 else 'plain'}"
+    if cfg["fam"] == "hist":
+        return f"history:{cfg['kind']}:{cfg['mode']}:{cfg['ops'][0][0]}:{cfg['ops'][0][1]}"
+    cont = "plain" if cfg["nnoise"] < 0 else cfg.get("container", "list")
+    mb = cfg["members"][0]["db"]
+    return f"list:{cfg['method']}:{cont}:{'batch' + ('=k' if mb and mb[0] == len(cfg['members']) else '') if mb else 'nobatch'}"
 
 
 def correspondence(ctx, use_driver=True):
